@@ -336,7 +336,7 @@ def _simple_polygons(quick):
                 continue
             if _is_simple(quad):
                 seen.add(key)
-        polys += [list(q) for q in sorted(seen)][::7][:40]
+        polys += [list(q) for q in sorted(seen)][::3][:120]
     return polys
 
 
